@@ -161,6 +161,32 @@ def main(argv):
             with open(os.path.join(os.path.dirname(os.path.abspath(__file__)), 'ttsa', 'floors.json'), 'w') as fh:
                 json.dump(floors, fh, indent=1, sort_keys=True)
             print('wrote %d floors' % len(floors))
+            # where every top-level definition lives on the tree the checker was built for: a definition that later moves
+            # to another module and leaves its name behind as an alias is still found at its home (ttsa/core.py)
+            import ast as _ast
+            homes = {}
+            from ttsa.core import MODULES, PKG, REPO
+            for mn in MODULES:
+                with open(os.path.join(os.environ.get('TTSA_REPO', REPO), PKG, mn + '.py'), encoding='utf-8') as fh:
+                    import warnings
+                    with warnings.catch_warnings():
+                        warnings.simplefilter('ignore')
+                        t = _ast.parse(fh.read())
+                for st in t.body:
+                    names = []
+                    if isinstance(st, (_ast.FunctionDef, _ast.ClassDef)):
+                        names = [st.name]
+                    elif isinstance(st, _ast.Assign):
+                        names = [x.id for tg in st.targets for x in _ast.walk(tg) if isinstance(x, _ast.Name)]
+                    elif isinstance(st, _ast.AnnAssign) and isinstance(st.target, _ast.Name):
+                        names = [st.target.id]
+                    for nm in names:
+                        homes.setdefault(nm, [])
+                        if mn not in homes[nm]:
+                            homes[nm].append(mn)
+            with open(os.path.join(os.path.dirname(os.path.abspath(__file__)), 'ttsa', 'homes.json'), 'w') as fh:
+                json.dump(homes, fh, indent=1, sort_keys=True)
+            print('wrote the homes of %d top-level names' % len(homes))
             return 0
         if not args:
             print(__doc__)
